@@ -11,7 +11,7 @@ SPEC = {
         _g("monitor/metrics", "metrics"),
         _g("informer/disk", "disk"),
         _g("informer/numpin", "numpin"),
-        _g("consensus/crdt", "crdt"),
+        _g("consensus/crdt", "crdt", ["crdt/c18_lifecycle_test.go"]),
     ],
     "gen": ["Locksets"],
     "force": ["Gen/Locksets.v", "Proofs/C18_Table.v", "Proofs/C18_Tie.v", "Proofs/C18_WaitTable.v"],
@@ -26,6 +26,10 @@ SPEC = {
             "- the watcher's look before, while and after Shutdown holds shutdownLock, at each component call Shutdown makes "
             "under the lock; peer removed by others, by LeaveOnShutdown, by PeerRemove(self) or not; one or two Shutdown calls; "
             "ready() giving up, failing or finishing while Shutdown runs - a deadlock is a verdict from the goroutine dump; "
+            "crdt 'crdt-lifecycle': ~22 life-cycle scripts on the real Consensus, batching on and off - Shutdown before SetClient, "
+            "right after SetClient, after Ready, after a setup() that gave up (pubsub topic taken), once / twice concurrently / again "
+            "later, with LogPin/LogUnpin callers active; a Shutdown parked in a channel receive while neither setup() nor batchWorker() "
+            "is alive is a deadlock verdict from the dump; "
             "disk and numpin: GetMetric while "
             "Shutdown; crdt: LogPin/LogUnpin/State while Shutdown with batching). non-trivial = more than 100 operations of "
             "at least 2 kinds completed; distinct = distinct scenario inputs; the schedule itself is the Go scheduler's",
@@ -38,13 +42,15 @@ SPEC = {
                 "mutual-exclusion invariant, Proofs/C18_Conc.v mutex_reach)",
                 "callbacks handed to library calls (ring.Do) run synchronously; code of packages outside the seven analysed ones "
                 "takes none of the tracked locks and does not retain references handed to it"],
-    "level_text": "Theorems (Props/C18.v, 20, all closed): general — lockset_drf (disciplined threads never race, every interleaving of the "
+    "level_text": "Theorems (Props/C18.v, 21, all closed): general — lockset_drf (disciplined threads never race, every interleaving of the "
                   "mutex/rwmutex machine), acyclic_no_lock_deadlock (strictly ordered acquisition, pending writers included, never "
                   "deadlocks) and its generalisation acyclic_wait_for_no_deadlock for the machine with Wait g (a thread blocks until the "
                   "thread group g has finished): if 'holds L acquiring M' + 'holds L waiting for G' + 'a thread of G acquires L' + "
                   "'a thread of G waits for G'' can be ranked, no interleaving reaches a state where every unfinished thread is blocked; "
                   "on the tables regenerated from the Go source at every run — discipline_holds, table_drf, "
-                  "lock_order_acyclic, wait_graph_acyclic, table_no_wait_deadlock, table_covers_waits, no_lock_leaks, accessors_atomic, "
+                  "lock_order_acyclic, wait_graph_acyclic, table_no_wait_deadlock, table_covers_waits, waited_goroutines_always_started "
+                  "(every plain receive from a channel field has a closer whose go statement is reached on every path of its launcher, "
+                  "up to a constructor), no_lock_leaks, accessors_atomic, "
                   "table_covers_guards; wait_graph_as_pinned_refuted (the pinned Shutdown / watchPeers / ready cycles, with a reachable "
                   "deadlocked state of the machine); on the object models — alerts_not_torn and "
                   "window_latest_atomic for the variant the table selects, with refutation witnesses for the pinned variants. A -race "
@@ -54,8 +60,8 @@ SPEC = {
                   "are not modelled, the stress run samples them; the translator is syntactic and trusted (self-tested); "
                   "the wait model has static groups (every goroutine a Wait collects is registered before the Wait: the sync.WaitGroup "
                   "contract) and does not model multi-way selects or context cancellation; "
-                  "needs fix-S30 (three fix: commits, S30 S31 S32: Cluster.Shutdown deadlocks with watchPeers / with ready()) — on a tree "
-                  "without them the check reports the cycles of the wait-for graph and the concrete interleavings and exits 1",
+                  "needs fix-S34 (crdt setup() publishes css.crdt unsynchronised with Shutdown) — on a tree without it the check reports the "
+                  "data race with its life-cycle script and the unguarded write in the table, and exits 1",
     "assumptions": ["real executions conform to Gen/Locksets.v (translator soundness)",
                     "every goroutine releases the locks it holds before it ends (checked syntactically: no_lock_leaks)",
                     "every goroutine a WaitGroup's Wait collects has been registered (Add) before that Wait starts; goroutines block only on "
